@@ -644,6 +644,11 @@ func (ex *Exec) mergeStates(sts []*State, pcs []string) *State {
 		g.nfresh++
 		res.epoch = fmt.Sprintf("j%d", g.nfresh)
 		res.m = map[string]string{}
+		res.joinOf = nil
+		for _, s := range sts {
+			res.joinOf = append(res.joinOf, s.clone())
+		}
+		res.joinPCs = append([]string{}, pcs...)
 	}
 	var ks []string
 	for k := range keys {
